@@ -70,7 +70,7 @@ Print Assumptions C09_literal_time.
 (* anything else is a syntax error: the lexer fails only where no rule matches a non-space rune (never for lack of fuel) *)
 Theorem C09_total : forall ops src,
   ops_wf ops = true -> lex ops src = None ->
-  exists pre rest, src = pre ++ rest /\ rest <> [] /\
+  exists pre rest, src = (pre ++ rest)%list /\ rest <> [] /\
     match rest with c :: _ => is_space c = false | [] => False end /\ first_match (lexicon ops) rest = None.
 Proof. exact C09Proofs.total. Qed.
 Print Assumptions C09_total.
